@@ -1073,4 +1073,382 @@ theorem satVarUpdate_spec (S : Sys) (st : St) :
   · simp at h
   · exact h
 
+
+/-! ### the do-while loop -/
+
+/-- what holds each time the body of the do-while is entered -/
+structure RInv (S : Sys) (st : St) (sv : List Nat) : Prop where
+  g : InvG S st.minUsage st.fixed st.value
+  k : InvK S st.minUsage st 0 0 []
+  l : InvL S st
+  sel : SelQ st.remaining st.usage st.light st.minUsage st.sat
+  sv_ok : ∀ v ∈ sv, st.fixed v = false ∧ 0 < (S.var v).penalty
+  sv_nd : sv.Nodup
+  sv_nil : st.sat = [] → sv = []
+
+theorem fixLoop_nil (S : Sys) (eps mb mu : Rat) (st : St) : fixLoop S eps mb mu st [] = st := by rw [fixLoop]
+
+theorem rinv_satVar (S : Sys) (hwf : WF S) (st : St) (hg : InvG S st.minUsage st.fixed st.value)
+    (hk : InvK S st.minUsage st 0 0 []) (hl : InvL S st) (hsel : SelQ st.remaining st.usage st.light st.minUsage st.sat) :
+    RInv S st (satVarUpdate S st []) := by
+  have hs := satVarUpdate_spec S st
+  refine ⟨hg, hk, hl, hsel, ?_, hs.1, ?_⟩
+  · intro v hv
+    obtain ⟨c, hc, e, he, _, hf, rfl⟩ := hs.2.1 v hv
+    refine ⟨hf, ?_⟩
+    have hcl : c ∈ st.light := by
+      rcases hsel with ⟨_, _, h⟩ | ⟨_, _, _, h, _⟩
+      · rw [h] at hc; simp at hc
+      · exact (h c hc).1
+    exact hwf.el_pen c (hl.li_act c hcl) e he
+  · intro h
+    cases hsv : satVarUpdate S st [] with
+    | nil => rfl
+    | cons v t =>
+      obtain ⟨c, hc, _⟩ := hs.2.1 v (by rw [hsv]; simp)
+      rw [h] at hc; simp at hc
+
+theorem round_inv (S : Sys) (hwf : WF S) (st : St) (sv : List Nat) (h : RInv S st sv) :
+    RInv S (round S 0 st sv) (satVarUpdate S (round S 0 st sv) []) := by
+  unfold round
+  have hfix : InvG S st.minUsage (fixLoop S 0 (minBound S st.minUsage sv) st.minUsage st sv).fixed
+        (fixLoop S 0 (minBound S st.minUsage sv) st.minUsage st sv).value ∧
+      InvK S st.minUsage (fixLoop S 0 (minBound S st.minUsage sv) st.minUsage st sv) 0 0 [] ∧
+      InvL S (fixLoop S 0 (minBound S st.minUsage sv) st.minUsage st sv) := by
+    cases hsv : sv with
+    | nil => rw [fixLoop_nil]; exact ⟨h.g, h.k, h.l⟩
+    | cons v t =>
+      have hm : 0 < st.minUsage := by
+        rcases h.sel with ⟨_, _, hs⟩ | ⟨_, hm, _⟩
+        · have := h.sv_nil hs; rw [hsv] at this; simp at this
+        · exact hm
+      rw [← hsv]
+      have hmb := minBound_spec S st.minUsage sv (fun v hv => (h.sv_ok v hv).2)
+      have := fixLoop_inv S hwf st.minUsage (minBound S st.minUsage sv) hm sv st h.g h.k h.l h.sv_ok h.sv_nd
+        (by
+          intro hneg u hu hb
+          by_contra hlt
+          exact hmb.1 hneg u hu ⟨hb, by linarith⟩)
+        hmb.2
+      exact ⟨this.1, this.2.1, this.2.2.1⟩
+  have hr := reselect_inv S hwf st.minUsage _ hfix.1 hfix.2.1 hfix.2.2
+  apply rinv_satVar S hwf _ hr.1 hr.2.1 hr.2.2.1
+  rw [hr.2.2.2.2.2.2.1, hr.2.2.2.2.2.2.2.1, hr.2.2.2.2.2.2.2.2]
+  exact hr.2.2.2.1
+
+theorem loop_inv (S : Sys) (hwf : WF S) : ∀ (fuel : Nat) (st : St) (sv : List Nat) (st' : St), RInv S st sv →
+    loop S 0 fuel st sv = some st' →
+    ∃ sv', RInv S st' sv' ∧ st'.light = [] := by
+  intro fuel
+  induction fuel with
+  | zero => intro st sv st' _ h; simp [loop] at h
+  | succ n ih =>
+    intro st sv st' hR h
+    rw [loop] at h
+    have hr := round_inv S hwf st sv hR
+    split at h
+    · rename_i he
+      simp at h; subst h
+      exact ⟨_, hr, by simpa using he⟩
+    · exact ih _ _ st' hr h
+
+
+/-! ### the INIT pass -/
+
+theorem foldl_updzero (l : List (Nat × Rat)) : ∀ val : Nat → Rat,
+    (∀ e ∈ l, (l.foldl (fun (val : Nat → Rat) (e : Nat × Rat) => upd val e.1 0) val) e.1 = 0) ∧
+    (∀ v, (∀ e ∈ l, e.1 ≠ v) → (l.foldl (fun (val : Nat → Rat) (e : Nat × Rat) => upd val e.1 0) val) v = val v) ∧
+    (∀ v, val v = 0 → (l.foldl (fun (val : Nat → Rat) (e : Nat × Rat) => upd val e.1 0) val) v = 0) := by
+  induction l with
+  | nil => intro val; simp
+  | cons a t ih =>
+    intro val
+    simp only [List.foldl_cons]
+    have := ih (upd val a.1 0)
+    refine ⟨?_, ?_, ?_⟩
+    · intro e he
+      simp at he
+      rcases he with rfl | he
+      · exact this.2.2 _ (by simp)
+      · exact this.1 e he
+    · intro v hv
+      rw [this.2.1 v (fun e he => hv e (by simp [he]))]
+      have : v ≠ a.1 := fun h => hv a (by simp) h.symm
+      simp [upd, this]
+    · intro v hv
+      apply this.2.2
+      by_cases h : v = a.1
+      · simp [upd, h]
+      · simp [upd, h, hv]
+
+theorem initUsage_shared (S : Sys) (hwf : WF S) (c : Nat) (hc : c ∈ S.active) (hf : (S.cnst c).fatpipe = false) :
+    initUsage S c = freeSum S (fun _ => false) c := by
+  unfold initUsage freeSum
+  simp only [hf, Bool.not_false, if_true]
+  have : ∀ (l : List (Nat × Rat)) (a : Rat), (∀ e ∈ l, 0 ≤ e.2) →
+      l.foldl (fun u e => if 0 < e.2 then u + e.2 / (S.var e.1).penalty else u) a =
+      a + sumBy (fun e => if (false = true) then 0 else e.2 / (S.var e.1).penalty) l := by
+    intro l
+    induction l with
+    | nil => intro a _; simp
+    | cons e t ih =>
+      intro a hw
+      simp only [List.foldl_cons, sumBy_cons]
+      rw [ih _ (fun e he => hw e (by simp [he]))]
+      have h0 := hw e (by simp)
+      by_cases h : 0 < e.2
+      · simp [h]; ring
+      · have : e.2 = 0 := by linarith
+        simp [this]
+  have := this (S.cnst c).elems 0 (hwf.el_w c hc)
+  simpa using this
+
+theorem initUsage_fat (S : Sys) (c : Nat) (hf : (S.cnst c).fatpipe = true) :
+    initUsage S c = fatUsage S (fun _ => 0) c := by
+  unfold initUsage fatUsage
+  simp [hf]
+
+theorem SelQ_congr (rem use rem' use' : Nat → Rat) (l : List Nat) (mu : Rat) (sat : List Nat)
+    (h : SelQ rem use l mu sat) (heq : ∀ c ∈ l, rem c = rem' c ∧ use c = use' c) : SelQ rem' use' l mu sat := by
+  rcases h with h | ⟨h1, h2, h3, h4, h5⟩
+  · exact Or.inl h
+  · right
+    refine ⟨h1, h2, ?_, ?_, h5⟩
+    · intro c hc; rw [← (heq c hc).1, ← (heq c hc).2]; exact h3 c hc
+    · intro c hc
+      have := h4 c hc
+      rw [← (heq c this.1).1, ← (heq c this.1).2]; exact this
+
+/-- state of the INIT pass after the constraints `done` -/
+structure InitI (S : Sys) (val0 : Nat → Rat) (done : List Nat) (st : St) : Prop where
+  fx : st.fixed = fun _ => false
+  ru : ∀ c ∈ done, st.remaining c = (S.cnst c).bound ∧ st.usage c = initUsage S c
+  li : st.light = done.filter (fun c => decide (0 < initUsage S c))
+  v0 : ∀ c ∈ done, ∀ e ∈ (S.cnst c).elems, st.value e.1 = 0
+  vo : ∀ v, (∀ c ∈ done, ∀ e ∈ (S.cnst c).elems, e.1 ≠ v) → st.value v = val0 v
+  sel : SelQ (fun c => (S.cnst c).bound) (fun c => initUsage S c) st.light st.minUsage st.sat
+
+theorem initCnst_step (S : Sys) (hwf : WF S) (val0 : Nat → Rat) (done : List Nat) (st : St) (c : Nat)
+    (hc : c ∈ S.active) (hnd : c ∉ done) (hI : InitI S val0 done st) :
+    InitI S val0 (done ++ [c]) (initCnst S 0 st c) := by
+  have hb := hwf.cb_pos c hc
+  have hfz := foldl_updzero (S.cnst c).elems st.value
+  unfold initCnst
+  simp only [mul_zero, dblPos, hb, decide_true, Bool.not_true, Bool.false_eq_true, if_false]
+  have hlpos : ∀ c' ∈ st.light, 0 < initUsage S c' := by
+    intro c' hc'; rw [hI.li] at hc'; simp at hc'; exact hc'.2
+  by_cases hu : 0 < initUsage S c
+  · simp only [hu, if_true]
+    have ho := satCnstUpdate_other ((S.cnst c).bound / initUsage S c) c
+      { st with remaining := upd st.remaining c (S.cnst c).bound,
+                value := (S.cnst c).elems.foldl (fun (val : Nat → Rat) (e : Nat × Rat) => upd val e.1 0) st.value,
+                usage := upd st.usage c (initUsage S c), light := st.light ++ [c] }
+    have hQ := satCnstUpdate_Q (fun c => (S.cnst c).bound) (fun c => initUsage S c) st.light
+      { st with remaining := upd st.remaining c (S.cnst c).bound,
+                value := (S.cnst c).elems.foldl (fun (val : Nat → Rat) (e : Nat × Rat) => upd val e.1 0) st.value,
+                usage := upd st.usage c (initUsage S c), light := st.light ++ [c] } c hI.sel ⟨hb, hu⟩ hlpos
+    constructor
+    · rw [ho.2.1]; exact hI.fx
+    · intro c' hc'
+      rw [ho.2.2.1, ho.2.2.2.1]
+      simp at hc'
+      by_cases h : c' = c
+      · subst h; simp
+      · rcases hc' with hc' | hc'
+        · simp only [upd, h, if_false]; exact hI.ru c' hc'
+        · exact absurd hc' h
+    · rw [ho.2.2.2.2]; simp only [List.filter_append, hI.li]; simp [hu]
+    · intro c' hc' e he
+      rw [ho.1]
+      simp at hc'
+      rcases hc' with hc' | hc'
+      · exact hfz.2.2 _ (hI.v0 c' hc' e he)
+      · subst hc'; exact hfz.1 e he
+    · intro v hv
+      rw [ho.1]
+      simp only []
+      rw [hfz.2.1 v (fun e he => hv c (by simp) e he)]
+      exact hI.vo v (fun c' hc' e he => hv c' (by simp [hc']) e he)
+    · rw [ho.2.2.2.2]; exact hQ
+  · simp only [hu, if_false]
+    constructor
+    · exact hI.fx
+    · intro c' hc'
+      simp at hc'
+      by_cases h : c' = c
+      · subst h; simp
+      · rcases hc' with hc' | hc'
+        · simp only [upd, h, if_false]; exact hI.ru c' hc'
+        · exact absurd hc' h
+    · simp only [List.filter_append, hI.li]; simp [hu]
+    · intro c' hc' e he
+      simp at hc'
+      rcases hc' with hc' | hc'
+      · exact hfz.2.2 _ (hI.v0 c' hc' e he)
+      · subst hc'; exact hfz.1 e he
+    · intro v hv
+      simp only []
+      rw [hfz.2.1 v (fun e he => hv c (by simp) e he)]
+      exact hI.vo v (fun c' hc' e he => hv c' (by simp [hc']) e he)
+    · exact hI.sel
+
+theorem initAll_I (S : Sys) (hwf : WF S) (val0 : Nat → Rat) : InitI S val0 S.active (initAll S 0 val0) := by
+  unfold initAll
+  have gen : ∀ (todo done : List Nat) (st : St), (done ++ todo).Nodup → (∀ c ∈ todo, c ∈ S.active) →
+      InitI S val0 done st → InitI S val0 (done ++ todo) (todo.foldl (initCnst S 0) st) := by
+    intro todo
+    induction todo with
+    | nil => intro done st _ _ h; simpa using h
+    | cons c t ih =>
+      intro done st hnd hact hI
+      simp only [List.foldl_cons]
+      have hcd : c ∉ done := by
+        intro h
+        have := (List.nodup_append.mp hnd).2.2 c h c (by simp)
+        exact this rfl
+      have h1 := initCnst_step S hwf val0 done st c (hact c (by simp)) hcd hI
+      have := ih (done ++ [c]) _ (by simpa using hnd) (fun c' hc' => hact c' (by simp [hc'])) h1
+      simpa using this
+  have := gen S.active [] (st0 val0) (by simpa using hwf.act_nd) (fun c h => h)
+    ⟨rfl, by simp, by simp [st0], by simp, by intro v _; rfl, Or.inl ⟨by simp [st0], rfl, rfl⟩⟩
+  simpa using this
+
+
+theorem fixedLoad_none (S : Sys) (value : Nat → Rat) (c : Nat) : fixedLoad S (fun _ => false) value c = 0 := by
+  unfold fixedLoad; apply sumBy_zero; intro e _; simp
+
+theorem init_rinv (S : Sys) (hwf : WF S) (val0 : Nat → Rat) :
+    RInv S (initAll S 0 val0) (satVarUpdate S (initAll S 0 val0) []) ∧
+    (∀ v, (∀ c ∈ S.active, ∀ e ∈ (S.cnst c).elems, e.1 ≠ v) → (initAll S 0 val0).value v = val0 v) ∧
+    (initAll S 0 val0).fixed = fun _ => false := by
+  have I := initAll_I S hwf val0
+  generalize initAll S 0 val0 = st at I
+  have hfx := I.fx
+  have hmemL : ∀ c, c ∈ st.light ↔ (c ∈ S.active ∧ 0 < initUsage S c) := by
+    intro c; rw [I.li]; simp
+  have hL : InvL S st := by
+    constructor
+    · intro c hc hnl hf
+      rw [hfx, ← initUsage_shared S hwf c hc hf]
+      have h1 : ¬ 0 < initUsage S c := fun h => hnl ((hmemL c).mpr ⟨hc, h⟩)
+      have h2 := freeSum_nonneg S hwf (fun _ => false) c hc
+      rw [← initUsage_shared S hwf c hc hf] at h2
+      linarith
+    · intro c hc hnl hf
+      rw [(I.ru c hc).2]
+      have h1 : ¬ 0 < initUsage S c := fun h => hnl ((hmemL c).mpr ⟨hc, h⟩)
+      have h2 := (fatUsage_spec S (fun _ => 0) c).1
+      rw [← initUsage_fat S c hf] at h2
+      linarith
+    · intro c hc; exact ((hmemL c).mp hc).1
+    · intro c hc
+      have := (hmemL c).mp hc
+      rw [(I.ru c this.1).1, (I.ru c this.1).2]
+      exact ⟨hwf.cb_pos c this.1, this.2⟩
+    · rw [I.li]; exact List.Nodup.filter _ hwf.act_nd
+  have hG0 : InvG S 0 st.fixed st.value := by
+    rw [hfx]
+    constructor
+    · intro c hc e he _; exact I.v0 c hc e he
+    · intro v hv; simp at hv
+    · intro v hv; simp at hv
+    · intro c hc _; rw [fixedLoad_none]; simpa using le_of_lt (hwf.cb_pos c hc)
+    · intro c hc _; rw [fixedLoad_none]; simpa using le_of_lt (hwf.cb_pos c hc)
+    · intro c _ _ e _ hv; simp at hv
+  have hK0 : InvK S 0 st 0 0 [] := by
+    constructor
+    · intro c hc _; rw [hfx, fixedLoad_none, (I.ru c hc).1]; simp
+    · intro c hc hf; rw [hfx, (I.ru c hc).2, initUsage_shared S hwf c hc hf]; simp
+    · intro c hc _; exact (I.ru c hc).1
+    · intro c hc hf e he _ hw
+      rw [(I.ru c hc).2, initUsage_fat S c hf]
+      exact (fatUsage_spec S (fun _ => 0) c).2.1 e he (by simp) hw
+    · intro c hc hf; rw [(I.ru c hc).2, initUsage_fat S c hf]; exact (fatUsage_spec S (fun _ => 0) c).1
+    · intro c hc _; simpa using le_of_lt (hwf.cb_pos c hc)
+  have hsel : SelQ st.remaining st.usage st.light st.minUsage st.sat := by
+    apply SelQ_congr _ _ _ _ _ _ _ I.sel
+    intro c hc
+    have := (hmemL c).mp hc
+    exact ⟨(I.ru c this.1).1.symm, (I.ru c this.1).2.symm⟩
+  have hle : ∀ c ∈ st.light, st.minUsage * st.usage c ≤ st.remaining c := by
+    intro c hc
+    rcases hsel with ⟨hd, _, _⟩ | ⟨_, _, hle, _, _⟩
+    · rw [hd] at hc; simp at hc
+    · exact hle c hc
+  have hb := inv_rebase S hwf 0 st.minUsage st hG0 hK0 hL hle
+  exact ⟨rinv_satVar S hwf st hb.1 hb.2 hL hsel, I.vo, hfx⟩
+
+
+/-! ### frame: what a round does not touch, what it never undoes -/
+
+theorem round_frame (S : Sys) (hwf : WF S) (st : St) (sv : List Nat) (h : RInv S st sv) :
+    (∀ u, u ∉ sv → (round S 0 st sv).fixed u = st.fixed u ∧ (round S 0 st sv).value u = st.value u) ∧
+    (∀ u, st.fixed u = true → (round S 0 st sv).fixed u = true ∧ (round S 0 st sv).value u = st.value u) := by
+  unfold round
+  have hr := fun m (st1 : St) hG hK hL => reselect_inv S hwf m st1 hG hK hL
+  cases hsv : sv with
+  | nil =>
+    rw [fixLoop_nil]
+    have := hr st.minUsage st h.g h.k h.l
+    rw [this.2.2.2.2.1, this.2.2.2.2.2.1]
+    exact ⟨fun u _ => ⟨rfl, rfl⟩, fun u hu => ⟨hu, rfl⟩⟩
+  | cons v t =>
+    have hm : 0 < st.minUsage := by
+      rcases h.sel with ⟨_, _, hs⟩ | ⟨_, hm, _⟩
+      · have := h.sv_nil hs; rw [hsv] at this; simp at this
+      · exact hm
+    rw [← hsv]
+    have hmb := minBound_spec S st.minUsage sv (fun v hv => (h.sv_ok v hv).2)
+    have hf := fixLoop_inv S hwf st.minUsage (minBound S st.minUsage sv) hm sv st h.g h.k h.l h.sv_ok h.sv_nd
+      (by
+        intro hneg u hu hb
+        by_contra hlt
+        exact hmb.1 hneg u hu ⟨hb, by linarith⟩)
+      hmb.2
+    have := hr st.minUsage _ hf.1 hf.2.1 hf.2.2.1
+    rw [this.2.2.2.2.1, this.2.2.2.2.2.1]
+    exact ⟨hf.2.2.2.1, hf.2.2.2.2.1⟩
+
+theorem sv_in_elems (S : Sys) (st : St) (hl : InvL S st) (hsel : SelQ st.remaining st.usage st.light st.minUsage st.sat) :
+    ∀ v ∈ satVarUpdate S st [], ∃ c ∈ S.active, ∃ e ∈ (S.cnst c).elems, e.1 = v := by
+  intro v hv
+  obtain ⟨c, hc, e, he, _, _, rfl⟩ := (satVarUpdate_spec S st).2.1 v hv
+  have hcl : c ∈ st.light := by
+    rcases hsel with ⟨_, _, h⟩ | ⟨_, _, _, h, _⟩
+    · rw [h] at hc; simp at hc
+    · exact (h c hc).1
+  exact ⟨c, hl.li_act c hcl, e, he, rfl⟩
+
+/-- the loop, with the frame property: a variable that appears in no enabled element set keeps its value -/
+theorem loop_inv_frame (S : Sys) (hwf : WF S) : ∀ (fuel : Nat) (st : St) (sv : List Nat) (st' : St), RInv S st sv →
+    (∀ v ∈ sv, ∃ c ∈ S.active, ∃ e ∈ (S.cnst c).elems, e.1 = v) →
+    loop S 0 fuel st sv = some st' →
+    (∃ sv', RInv S st' sv') ∧ st'.light = [] ∧
+    (∀ v, (∀ c ∈ S.active, ∀ e ∈ (S.cnst c).elems, e.1 ≠ v) → st'.value v = st.value v ∧ st'.fixed v = st.fixed v) := by
+  intro fuel
+  induction fuel with
+  | zero => intro st sv st' _ _ h; simp [loop] at h
+  | succ n ih =>
+    intro st sv st' hR hel h
+    rw [loop] at h
+    have hr := round_inv S hwf st sv hR
+    have hfr := round_frame S hwf st sv hR
+    have hout : ∀ v, (∀ c ∈ S.active, ∀ e ∈ (S.cnst c).elems, e.1 ≠ v) → v ∉ sv := by
+      intro v hv hmem
+      obtain ⟨c, hc, e, he, heq⟩ := hel v hmem
+      exact hv c hc e he heq
+    split at h
+    · rename_i he
+      simp at h; subst h
+      refine ⟨⟨_, hr⟩, by simpa using he, ?_⟩
+      intro v hv
+      have := hfr.1 v (hout v hv)
+      exact ⟨this.2, this.1⟩
+    · have := ih _ _ st' hr (sv_in_elems S _ hr.l hr.sel) h
+      refine ⟨this.1, this.2.1, ?_⟩
+      intro v hv
+      have h1 := this.2.2 v hv
+      have h2 := hfr.1 v (hout v hv)
+      exact ⟨by rw [h1.1, h2.2], by rw [h1.2, h2.1]⟩
+
 end SgVerif.Lmm
